@@ -10,16 +10,17 @@ from .common import func_params, value_returns, last_return, XLERR, XLT, PY_CMPO
 
 PROPERTY = 'C09'
 EXPLANATION = (
-    'Decided from source: (C09.1) the six rich comparisons of the base value class apply their own Python operator to '
-    'the same pair of keys (self key first) after normalising the other operand; (C09.2) type precedence Number(=DateTime '
-    'as serial) < Text < Boolean, FALSE < TRUE, from the folded sort_precedence/_sort_key definitions; (C09.3) a class that '
-    'overrides a rich comparison overrides all six and defers to the precedence mechanism for an operand of another '
-    'class (type test dominating the comparison of values), folding both operands with the same case function; (C09.4) '
-    'blank conversions: every concrete class returns a non-blank value of its own kind, Blank against Blank has a base '
-    'case (no unbounded mutual recursion); (C09.5) the six OP_* comparison wrappers apply their own operator to (left, '
-    'right) in that order - a mirrored delegation is accepted only while no class has asymmetric overrides - and the four '
-    'ordering wrappers share one blank short-circuit.'
-    ' (C09.6) the whole comparison table - 13 representative values of all classes x 13 x six operators - computed on the real comparison methods (dunder dispatch, casts, blank conversion) against one total order, except text-left/non-text-right pairs (the known finding of C09.3); (C09.7) constant cells evaluate to the value class of their content ("" is a text, None a blank).')
+    'Decided from source: (C09.1) the six rich comparisons of the base value class apply their own Python operator '
+    'to the same pair of keys after normalising the other operand; (C09.2) type precedence Number(=DateTime as '
+    'serial) < Text < Boolean, FALSE < TRUE; (C09.3) a class that overrides a rich comparison overrides all six and '
+    'defers to the precedence mechanism for an operand of another class (known finding F17 for Text); (C09.4) blank '
+    'conversions: every concrete class returns a non-blank value of its own kind, Blank against Blank has a base '
+    'case; (C09.5) the six OP_* operators as the evaluator calls them (registered objects: wrappers, private '
+    'decorators, bodies as written) on every ordered pair of representative non-blank values compute their own '
+    'relation of the one total order with the operands in written order; (C09.6) the whole comparison table - 13 '
+    'representative values of all classes x 13 x six operators - on the real comparison methods against one total '
+    'order, except text-left/non-text-right pairs (F17); (C09.7) constant cells evaluate to the value class of '
+    'their content ("" is a text, None a blank).')
 NOT_DECIDED = 'trichotomy / transitivity over concrete strings and floats'
 TRUSTED = ['tuple comparison semantics of Python for the (precedence, value) keys']
 
